@@ -1,5 +1,6 @@
 import TFV.Properties.DE
 import TFV.Properties.Runs
+import TFV.Properties.Src.BoundsControl
 #print axioms TFV.DE.C07_clamp
 #print axioms TFV.DE.C07_clampMean
 #print axioms TFV.DE.C07_repair_only_outside
@@ -14,3 +15,5 @@ import TFV.Properties.Runs
 #print axioms TFV.DE.C07_box_invariant
 #print axioms TFV.Runs.C07_run_in_box
 #print axioms TFV.Runs.C07_run_in_box_shade
+#print axioms TFV.SrcTie.C07_src_bounds_control
+#print axioms TFV.SrcTie.C07_src_clamp_agrees
